@@ -34,7 +34,7 @@ func TestC14(t *testing.T) {
 	nrun.Main(t, &nrun.Check{
 		ID: "C14", TestName: "TestC14", Plans: plans(), Keep: keep,
 		QuickTime: 85 * time.Second, ThorTime: 18 * time.Minute,
-		Rule:   "engine N, riding on the C01 producer scenarios (Flush / AbortBufferedRecords / PurgeTopicsFromClient / context cancel / Close as disruptors, produce faults) and the C04 direct-consumer scenarios (small polls, pause/resume, leader moves that discard buffered fetches, fetch faults, Close): every order of application calls, frame deliveries, ticks and faults within k deviations; in each execution every record seen by OnProduceRecordBuffered must be seen exactly once by OnProduceRecordUnbuffered with the error its promise got, every record seen by OnFetchRecordBuffered exactly once by OnFetchRecordUnbuffered (polled or discarded), and BufferedFetchRecords/Bytes must be zero when nothing is buffered; distinct = distinct terminal outcomes per scenario",
+		Rule:   "engine N, riding on the C01 producer scenarios (Flush / AbortBufferedRecords / PurgeTopicsFromClient / context cancel / Close as disruptors, produce faults) and the C04 direct-consumer scenarios (small polls, pause/resume, leader moves that discard buffered fetches, fetch faults, Close): every order of application calls, frame deliveries, ticks and faults within k deviations, plus the generated consumer hook family HG (4 configurations: OnFetchRecordUnbuffered instantaneous or taking 30 ms of virtual time per record x partitions on two brokers or one; polling scripts of 2-3 calls over PollFetches/PollRecords(1)/PollRecords(3); every disruptor script of at most two calls over SetOffsets back/forward, RemoveConsumePartitions, AddConsumePartitions, PurgeTopicsFromConsuming, PauseFetchPartitions, a second concurrent PollFetches, Close-last, started after the g-th poll returned or while its hook dispatch is running, optionally after fresh records were appended and buffered: 4,160 combinations quick, 44,200 thorough on the default schedule, thorough then single deviations time-capped); in each execution every record seen by OnProduceRecordBuffered must be seen exactly once by OnProduceRecordUnbuffered with the error its promise got, every record seen by OnFetchRecordBuffered exactly once by OnFetchRecordUnbuffered (polled or discarded), and BufferedFetchRecords/Bytes must be zero when nothing is buffered; distinct = distinct terminal outcomes per scenario",
 		Assume: []string{"same executions and assumptions as C01 and C04", "the group-rebalance discard path is exercised by the C04 leader-move scenarios (assignment invalidation), not by a group scenario"},
 	})
 }
